@@ -174,12 +174,13 @@ class FakeFilePath:
 def marker_story(pos):
     """A file > 8 KiB whose only licence tag is far beyond the first 4 KiB and whose snippet marker starts at
     byte `pos` (around a multiple of 4096): the marker must be seen wherever it lies, so the tag counts."""
+    base = int(PARAMS.get("marker_base", 8192))
     k = None
-    for v in range(8192 - 24, 8192 + 6):
+    for v in range(base - 24, base + 6):
         if pos == v:
             k = v
     if k is None:
-        k = 8192
+        k = base
     line = "# " + "y" * 61 + "\n"
     filler = line * (k // 64) + "#" * (k % 64)
     body = filler + " SPDX-SnippetBegin\n" + TAGLINE + "# SPDX-SnippetEnd\n"
@@ -197,7 +198,7 @@ def marker_story(pos):
 
 def _marker(pos: int) -> bool:
     """
-    pre: 8192 - 24 <= pos < 8192 + 6
+    pre: int(PARAMS.get("marker_base", 8192)) - 24 <= pos < int(PARAMS.get("marker_base", 8192)) + 6
     post: _
     """
     return marker_story(pos)[0]
@@ -205,7 +206,7 @@ def _marker(pos: int) -> bool:
 
 def _marker_reach(pos: int) -> bool:
     """
-    pre: 8192 - 24 <= pos < 8192 + 6
+    pre: int(PARAMS.get("marker_base", 8192)) - 24 <= pos < int(PARAMS.get("marker_base", 8192)) + 6
     post: False
     """
     return marker_story(pos)[0]
@@ -286,4 +287,49 @@ def explain_win(off, snippet, after, wide):
     return d
 
 
-EXPLAIN = {"_tag": explain_tag, "_win": explain_win, "_marker": explain_marker}
+# ---- copyright notices on lines separated by every kind of line break str.splitlines knows (CR-only files ...)
+SEPS = [13, 11, 12, 28, 29, 30, 133, 8232, 8233]
+
+
+def sep_story(si, tag):
+    sep = chr(SEPS[_pick(si, len(SEPS))])
+    tags = ["SPDX-FileCopyrightText:", "Copyright (C)", "©"]
+    t = tags[_pick(tag, 3)]
+    text = f"# {t} 2020 Jane Doe{sep}# {t} 2021 Acme Inc.{sep}x = 1{sep}"
+    try:
+        info = ex.extract_reuse_info(text)
+    except Exception as e:  # noqa
+        return False, {"separator": repr(sep), "text": text, "got": f"raises {type(e).__name__}"}
+    got = sorted(info.copyright_lines)
+    want = sorted([f"{t} 2020 Jane Doe", f"{t} 2021 Acme Inc."])
+    return got == want, {"separator": repr(sep), "text": text, "got": got, "expected": want}
+
+
+def _pick(i, n):
+    for v in range(n):
+        if i == v:
+            return v
+    return 0
+
+
+def _sep(si: int, tag: int) -> bool:
+    """
+    pre: 0 <= si < len(SEPS) and 0 <= tag < 3
+    post: _
+    """
+    return sep_story(si, tag)[0]
+
+
+def _sep_reach(si: int, tag: int) -> bool:
+    """
+    pre: 0 <= si < len(SEPS) and 0 <= tag < 3
+    post: False
+    """
+    return sep_story(si, tag)[0]
+
+
+def explain_sep(si, tag):
+    return sep_story(si, tag)[1]
+
+
+EXPLAIN = {"_tag": explain_tag, "_win": explain_win, "_marker": explain_marker, "_sep": explain_sep}
